@@ -12,10 +12,10 @@ variable {K V : Type} [DecidableEq K]
 def deref (heap : List (Nat × List V)) (d : List (K × Nat)) : List (K × List V) :=
   d.map fun kv => (kv.1, (dget kv.2 heap).getD [])
 
-def idsOf (d : List (K × Nat)) : List Nat := d.map (·.2)
+def oidsOf (d : List (K × Nat)) : List Nat := d.map (·.2)
 
 theorem Own.vals_eq (o : Own K V) : o.vals = deref o.heap o.d := rfl
-theorem Own.ids_eq (o : Own K V) : o.ids = idsOf o.d := rfl
+theorem Own.ids_eq (o : Own K V) : o.ids = oidsOf o.d := rfl
 
 theorem dget_deref (heap : List (Nat × List V)) (d : List (K × Nat)) (k : K) :
     dget k (deref heap d) = (dget k d).map fun i => (dget i heap).getD [] := by
@@ -25,23 +25,23 @@ theorem dget_deref (heap : List (Nat × List V)) (d : List (K × Nat)) (k : K) :
     simp only [deref, List.map_cons, dget] at *
     split <;> simp_all
 
-theorem mem_ids_of_dget {d : List (K × Nat)} {k : K} {i : Nat} (h : dget k d = some i) : i ∈ idsOf d := by
+theorem mem_ids_of_dget {d : List (K × Nat)} {k : K} {i : Nat} (h : dget k d = some i) : i ∈ oidsOf d := by
   induction d with
   | nil => simp [dget] at h
   | cons p r ih =>
     simp only [dget] at h
     split at h
-    · simp only [Option.some.injEq] at h; subst h; simp [idsOf]
-    · have := ih h; simp only [idsOf, List.map_cons, List.mem_cons] at this ⊢; exact Or.inr this
+    · simp only [Option.some.injEq] at h; subst h; simp [oidsOf]
+    · have := ih h; simp only [oidsOf, List.map_cons, List.mem_cons] at this ⊢; exact Or.inr this
 
 /-- frame: writing a list object the dict does not refer to changes nothing it reads -/
 theorem deref_frame (heap : List (Nat × List V)) (d : List (K × Nat)) (i : Nat) (x : List V)
-    (h : i ∉ idsOf d) : deref (dset i x heap) d = deref heap d := by
+    (h : i ∉ oidsOf d) : deref (dset i x heap) d = deref heap d := by
   induction d with
   | nil => rfl
   | cons p r ih =>
-    simp only [idsOf, List.map_cons, List.mem_cons, not_or] at h
-    have := ih (by simpa [idsOf] using h.2)
+    simp only [oidsOf, List.map_cons, List.mem_cons, not_or] at h
+    have := ih (by simpa [oidsOf] using h.2)
     simp only [deref, List.map_cons] at this ⊢
     rw [this, dget_dset]
     have : ¬ p.2 = i := fun e => h.1 e.symm
@@ -49,39 +49,39 @@ theorem deref_frame (heap : List (Nat × List V)) (d : List (K × Nat)) (i : Nat
 
 /-- in-place change of the list stored under `k` -/
 theorem deref_write (heap : List (Nat × List V)) (d : List (K × Nat)) (k : K) (i : Nat) (x : List V)
-    (hn : (idsOf d).Nodup) (hk : dget k d = some i) :
+    (hn : (oidsOf d).Nodup) (hk : dget k d = some i) :
     deref (dset i x heap) d = dset k x (deref heap d) := by
   induction d with
   | nil => simp [dget] at hk
   | cons p r ih =>
-    simp only [idsOf, List.map_cons, List.nodup_cons] at hn
+    simp only [oidsOf, List.map_cons, List.nodup_cons] at hn
     simp only [dget] at hk
     by_cases e : p.1 = k
     · simp only [e, ↓reduceIte, Option.some.injEq] at hk
-      have hr := deref_frame heap r i x (by simpa [idsOf, hk] using hn.1)
+      have hr := deref_frame heap r i x (by simpa [oidsOf, hk] using hn.1)
       simp only [deref, List.map_cons, dset] at hr ⊢
       rw [hr, dget_dset]
       simp [e, hk]
     · simp only [e, ↓reduceIte] at hk
       have hi := mem_ids_of_dget hk
-      have hne : ¬ p.2 = i := fun e' => hn.1 (by simpa [idsOf, e'] using hi)
-      have := ih (by simpa [idsOf] using hn.2) hk
+      have hne : ¬ p.2 = i := fun e' => hn.1 (by simpa [oidsOf, e'] using hi)
+      have := ih (by simpa [oidsOf] using hn.2) hk
       simp only [deref, List.map_cons, dset] at this ⊢
       rw [this, dget_dset]
       simp [e, hne]
 
 /-- a NEW list object `j` stored under `k` -/
 theorem deref_store (heap : List (Nat × List V)) (d : List (K × Nat)) (k : K) (j : Nat) (x : List V)
-    (hj : j ∉ idsOf d) : deref (dset j x heap) (dset k j d) = dset k x (deref heap d) := by
+    (hj : j ∉ oidsOf d) : deref (dset j x heap) (dset k j d) = dset k x (deref heap d) := by
   induction d with
   | nil => simp [deref, dset, dget_dset]
   | cons p r ih =>
-    simp only [idsOf, List.map_cons, List.mem_cons, not_or] at hj
+    simp only [oidsOf, List.map_cons, List.mem_cons, not_or] at hj
     by_cases e : p.1 = k
-    · have hr := deref_frame heap r j x (by simpa [idsOf] using hj.2)
+    · have hr := deref_frame heap r j x (by simpa [oidsOf] using hj.2)
       simp only [deref, dset, e, ↓reduceIte, List.map_cons] at hr ⊢
       rw [hr, dget_dset]; simp
-    · have := ih (by simpa [idsOf] using hj.2)
+    · have := ih (by simpa [oidsOf] using hj.2)
       have hne : ¬ p.2 = j := fun e' => hj.1 e'.symm
       simp only [deref, dset, e, ↓reduceIte, List.map_cons] at this ⊢
       rw [this, dget_dset]; simp [hne]
@@ -95,75 +95,75 @@ theorem deref_ddel (heap : List (Nat × List V)) (d : List (K × Nat)) (k : K) :
     by_cases e : p.1 = k <;> simp [e, ih]
 
 theorem ids_dset (d : List (K × Nat)) (k : K) (j : Nat) :
-    ∀ i ∈ idsOf (dset k j d), i = j ∨ i ∈ idsOf d := by
+    ∀ i ∈ oidsOf (dset k j d), i = j ∨ i ∈ oidsOf d := by
   induction d with
-  | nil => simp [dset, idsOf]
+  | nil => simp [dset, oidsOf]
   | cons p r ih =>
     intro i hi
     simp only [dset] at hi
     split at hi
-    · simp only [idsOf, List.map_cons, List.mem_cons] at hi ⊢
+    · simp only [oidsOf, List.map_cons, List.mem_cons] at hi ⊢
       rcases hi with h | h
       · exact Or.inl h
       · exact Or.inr (Or.inr h)
-    · simp only [idsOf, List.map_cons, List.mem_cons] at hi ⊢
+    · simp only [oidsOf, List.map_cons, List.mem_cons] at hi ⊢
       rcases hi with h | h
       · exact Or.inr (Or.inl h)
-      · rcases ih i (by simpa [idsOf] using h) with h' | h'
+      · rcases ih i (by simpa [oidsOf] using h) with h' | h'
         · exact Or.inl h'
-        · exact Or.inr (Or.inr (by simpa [idsOf] using h'))
+        · exact Or.inr (Or.inr (by simpa [oidsOf] using h'))
 
-theorem nodup_ids_dset (d : List (K × Nat)) (k : K) (j : Nat) (hn : (idsOf d).Nodup) (hj : j ∉ idsOf d) :
-    (idsOf (dset k j d)).Nodup := by
+theorem nodup_ids_dset (d : List (K × Nat)) (k : K) (j : Nat) (hn : (oidsOf d).Nodup) (hj : j ∉ oidsOf d) :
+    (oidsOf (dset k j d)).Nodup := by
   induction d with
-  | nil => simp [dset, idsOf]
+  | nil => simp [dset, oidsOf]
   | cons p r ih =>
-    simp only [idsOf, List.map_cons, List.nodup_cons, List.mem_cons, not_or] at hn hj
+    simp only [oidsOf, List.map_cons, List.nodup_cons, List.mem_cons, not_or] at hn hj
     simp only [dset]
     split
-    · simp only [idsOf, List.map_cons, List.nodup_cons]
+    · simp only [oidsOf, List.map_cons, List.nodup_cons]
       exact ⟨hj.2, hn.2⟩
-    · simp only [idsOf, List.map_cons, List.nodup_cons]
-      refine ⟨?_, ih (by simpa [idsOf] using hn.2) (by simpa [idsOf] using hj.2)⟩
+    · simp only [oidsOf, List.map_cons, List.nodup_cons]
+      refine ⟨?_, ih (by simpa [oidsOf] using hn.2) (by simpa [oidsOf] using hj.2)⟩
       intro hp
-      rcases ids_dset r k j p.2 (by simpa [idsOf] using hp) with h | h
+      rcases ids_dset r k j p.2 (by simpa [oidsOf] using hp) with h | h
       · exact hj.1 h.symm
-      · exact hn.1 (by simpa [idsOf] using h)
+      · exact hn.1 (by simpa [oidsOf] using h)
 
-theorem ids_ddel_sub (d : List (K × Nat)) (k : K) : ∀ i ∈ idsOf (ddel k d), i ∈ idsOf d := by
+theorem ids_ddel_sub (d : List (K × Nat)) (k : K) : ∀ i ∈ oidsOf (ddel k d), i ∈ oidsOf d := by
   intro i hi
-  simp only [idsOf, ddel, List.mem_map, List.mem_filter] at hi ⊢
+  simp only [oidsOf, ddel, List.mem_map, List.mem_filter] at hi ⊢
   obtain ⟨p, ⟨hp, _⟩, e⟩ := hi
   exact ⟨p, hp, e⟩
 
-theorem nodup_ids_ddel (d : List (K × Nat)) (k : K) (hn : (idsOf d).Nodup) : (idsOf (ddel k d)).Nodup := by
-  unfold idsOf ddel at *
+theorem nodup_ids_ddel (d : List (K × Nat)) (k : K) (hn : (oidsOf d).Nodup) : (oidsOf (ddel k d)).Nodup := by
+  unfold oidsOf ddel at *
   exact hn.sublist (List.Sublist.map _ List.filter_sublist)
 
 /-- the list object stored under `k` is not referred to any more once `k` is deleted -/
-theorem popped_not_in_ids (d : List (K × Nat)) (k : K) (i : Nat) (hn : (idsOf d).Nodup) (hk : dget k d = some i) :
-    i ∉ idsOf (ddel k d) := by
+theorem popped_not_in_ids (d : List (K × Nat)) (k : K) (i : Nat) (hn : (oidsOf d).Nodup) (hk : dget k d = some i) :
+    i ∉ oidsOf (ddel k d) := by
   induction d with
   | nil => simp [dget] at hk
   | cons p r ih =>
-    simp only [idsOf, List.map_cons, List.nodup_cons] at hn
+    simp only [oidsOf, List.map_cons, List.nodup_cons] at hn
     simp only [dget] at hk
     by_cases e : p.1 = k
     · simp only [e, ↓reduceIte, Option.some.injEq] at hk
       intro hi
       have := ids_ddel_sub r k i (by
-        simpa [ddel, List.filter_cons, notK, e, idsOf] using hi)
-      exact hn.1 (by simpa [idsOf, hk] using this)
+        simpa [ddel, List.filter_cons, notK, e, oidsOf] using hi)
+      exact hn.1 (by simpa [oidsOf, hk] using this)
     · simp only [e, ↓reduceIte] at hk
-      have hne : ¬ p.2 = i := fun e' => hn.1 (by simpa [idsOf, e'] using mem_ids_of_dget hk)
+      have hne : ¬ p.2 = i := fun e' => hn.1 (by simpa [oidsOf, e'] using mem_ids_of_dget hk)
       intro hi
-      have hi' : i ∈ idsOf (ddel k r) := by
-        simp only [ddel, List.filter_cons, notK, e, decide_false, Bool.not_false, ↓reduceIte, idsOf,
+      have hi' : i ∈ oidsOf (ddel k r) := by
+        simp only [ddel, List.filter_cons, notK, e, decide_false, Bool.not_false, ↓reduceIte, oidsOf,
           List.map_cons, List.mem_cons] at hi
         rcases hi with h | h
         · exact absurd h.symm hne
-        · simpa [idsOf, ddel, notK] using h
-      exact ih (by simpa [idsOf] using hn.2) hk hi'
+        · simpa [oidsOf, ddel, notK] using h
+      exact ih (by simpa [oidsOf] using hn.2) hk hi'
 
 /-- separation: no list object is stored under two keys, none of the stored ones is held by the
     caller, every id in use is below `next` -/
@@ -176,7 +176,7 @@ structure Sep (o : Own K V) : Prop where
 theorem sep_empty : Sep (Own.empty : Own K V) := ⟨by simp [Own.empty, Own.ids], by simp [Own.empty, Own.ids],
   by simp [Own.empty, Own.ids], by simp [Own.empty]⟩
 
-theorem Sep.next_fresh {o : Own K V} (h : Sep o) : o.next ∉ idsOf o.d := fun hi => by
+theorem Sep.next_fresh {o : Own K V} (h : Sep o) : o.next ∉ oidsOf o.d := fun hi => by
   have := h.bound _ hi; omega
 
 /-! ### `extend` (the storage part of `add` / `addlist`) -/
